@@ -158,6 +158,8 @@ def impl(case):
     from yldprolog import compiler, engine as E
     natives = case.get('native') or []
     yp = E.YP()
+    semcheck.watch_findall(yp)      # see semcheck: identity of variables that findall/3 collects from different answers
+    yp._verif_findall_inner = False
     cl = c20.rest_clauses(case) if natives else case['clauses']
     if cl:
         src = ast_io.program_text(cl)
@@ -298,6 +300,7 @@ def impl(case):
             pass
     info['ref'] = ref
     info['ref_end'] = end
+    info['findall_inner'] = bool(getattr(yp, '_verif_findall_inner', False))
     return info
 
 # ------------------------------------------------------------------ model side
@@ -389,6 +392,15 @@ def compare(case, io, mo):
     if mo and mo[0] == 'stuck':
         return 'model compiler stuck'
     m = model_view(mo)
+    if io.get('findall_inner'):
+        # outside the model's cell naming: compared without the identity of unbound variables
+        an = lambda l: [re.sub(r'_G\d+', '_G', x) for x in l]
+        io = dict(io, ref=an(io['ref']), outcome=(['return', an(io['outcome'][1])] if io['outcome'][0] == 'return' and isinstance(io['outcome'][1], list) else io['outcome']))
+        m = dict(m, hi=an(m['hi']))
+        for side in ('lo_out', 'hi_out'):
+            o = m[side]['outcome']
+            if o[0] == 'return':
+                m[side] = dict(m[side], outcome=['return', an(o[1])])
     dlo, dhi = bounds(case, io)
     if m['fchk'] == 'err':
         return None       # outside the specified domain (cyclic unification, unbound goal): the model's error is not a depth error
